@@ -6,8 +6,9 @@
 //! CodesStatsWrapper<Codes> and perform reads or writes through it on private
 //! streams; an observer thread takes snapshots through stats(); each thread also
 //! feeds a private CodesStats that is merged at the end with a seed-chosen mix of
-//! add / += / + / sum. Values are distinct 2^i-1, so the `unary` total of a
-//! snapshot is a bitmask naming exactly which updates it contains.
+//! add / += / + / sum. Values are 2^i-1 with i even, each used at most three times
+//! (also by different threads), so the `unary` total of a snapshot is a base-4
+//! number whose digits say how many updates of each value it contains.
 //!
 //! Oracle: every snapshot is the exact sum over the subset named by its bitmask
 //! (no torn update), contains every update completed before it and none not yet
@@ -130,22 +131,31 @@ fn sizes_of(v: u64) -> Arc<Vec<Option<u64>>> {
 }
 
 /// The concurrent scenario, executed under a shuttle scheduler.
+///
+/// Values are 2^i - 1 with i even and each value used at most three times in a
+/// scenario, so that the `unary` total (sum of 2^i = 4^(i/2)) is a base-4 number
+/// whose digits say how many updates of each value a snapshot contains.
 fn scenario(s: Arc<S15>, table: Arc<HashMap<u32, Arc<Vec<Option<u64>>>>>, obs: Arc<StdMutex<Vec<u64>>>) {
     use shuttle::thread;
     let code = wrapped_code(s.wrapped);
     let wrapper = Arc::new(CodesStatsWrapper::<Codes>::new(code));
     let seq = Arc::new(AtomicU64::new(1));
-    let all_ids: Vec<u32> = s.threads.iter().flatten().map(|u| u.i).collect();
-    let nupd = all_ids.len();
-    // (invoked, completed) sequence numbers per update id
-    let marks: Arc<StdMutex<HashMap<u32, (u64, u64)>>> = Arc::new(StdMutex::new(HashMap::new()));
+    let all: Vec<u32> = s.threads.iter().flatten().map(|u| u.i).collect();
+    let nupd = all.len();
+    let mut values: Vec<u32> = all.clone();
+    values.sort();
+    values.dedup();
+    // invocation / completion sequence numbers per (value, occurrence)
+    let inv: Arc<StdMutex<Vec<(u32, u64)>>> = Arc::new(StdMutex::new(Vec::new()));
+    let done: Arc<StdMutex<Vec<(u32, u64)>>> = Arc::new(StdMutex::new(Vec::new()));
     let order: Arc<StdMutex<Vec<u64>>> = Arc::new(StdMutex::new(Vec::new()));
     let mut handles = Vec::new();
     for (t, upds) in s.threads.iter().enumerate() {
         let upds = upds.clone();
         let wrapper = wrapper.clone();
         let seq = seq.clone();
-        let marks = marks.clone();
+        let inv = inv.clone();
+        let done = done.clone();
         let order = order.clone();
         let e = s.e;
         handles.push(thread::spawn(move || {
@@ -163,7 +173,7 @@ fn scenario(s: Arc<S15>, table: Arc<HashMap<u32, Arc<Vec<Option<u64>>>>>, obs: A
                     let mut writer = BufBitWriter::<$E, _>::new(MemWordWriterVec::new(Vec::<u64>::new()));
                     for u in &upds {
                         let v = (1u64 << u.i) - 1;
-                        let inv = seq.fetch_add(1, Ordering::SeqCst);
+                        inv.lock().unwrap().push((u.i, seq.fetch_add(1, Ordering::SeqCst)));
                         if u.write {
                             let n = if u.stat {
                                 StaticCodeWrite::<$E, _>::write(&*wrapper, &mut writer, v).unwrap()
@@ -179,9 +189,8 @@ fn scenario(s: Arc<S15>, table: Arc<HashMap<u32, Arc<Vec<Option<u64>>>>>, obs: A
                             };
                             assert!(r == v, "C15.wrapper_read: wrapper read {} instead of {}", r, v);
                         }
-                        let done = seq.fetch_add(1, Ordering::SeqCst);
-                        marks.lock().unwrap().insert(u.i, (inv, done));
-                        order.lock().unwrap().push(t as u64);
+                        done.lock().unwrap().push((u.i, seq.fetch_add(1, Ordering::SeqCst)));
+                        order.lock().unwrap().push(t as u64 * 16 + u.i as u64);
                         thread::sleep(std::time::Duration::from_millis(0));
                     }
                 }};
@@ -196,69 +205,73 @@ fn scenario(s: Arc<S15>, table: Arc<HashMap<u32, Arc<Vec<Option<u64>>>>>, obs: A
     {
         let wrapper = wrapper.clone();
         let seq = seq.clone();
-        let marks = marks.clone();
+        let inv = inv.clone();
+        let done = done.clone();
         let order = order.clone();
         let table = table.clone();
-        let all_ids = all_ids.clone();
+        let values = values.clone();
         let snaps = s.snapshots;
         handles.push(thread::spawn(move || {
             for _ in 0..snaps {
                 let s_inv = seq.fetch_add(1, Ordering::SeqCst);
                 let snap: CodesStats = *wrapper.stats().lock().unwrap();
                 let s_done = seq.fetch_add(1, Ordering::SeqCst);
-                order.lock().unwrap().push(100);
+                order.lock().unwrap().push(1000);
                 let mask = snap.unary;
-                // the mask may only name updates of this scenario
-                let mut members: Vec<u32> = Vec::new();
+                // decode the base-4 digits: how many updates of each value are in the snapshot
+                let mut counts: Vec<(u32, u64)> = Vec::new();
                 let mut rest = mask;
-                for id in &all_ids {
-                    if rest & (1u64 << id) != 0 {
-                        members.push(*id);
-                        rest &= !(1u64 << id);
-                    }
+                for v in &values {
+                    let c = (mask >> v) & 3;
+                    counts.push((*v, c));
+                    rest &= !(3u64 << v);
                 }
-                assert!(rest == 0, "C15.snapshot_torn: snapshot unary total {:#x} is not a sum of whole updates", mask);
+                assert!(rest == 0, "C15.snapshot_torn: snapshot unary total {:#x} is not a sum of whole updates of this scenario", mask);
+                let n_in: u64 = counts.iter().map(|c| c.1).sum();
                 assert!(
-                    snap.total == members.len() as u64,
+                    snap.total == n_in,
                     "C15.snapshot_torn: snapshot holds the unary contribution of {} updates but total = {}",
-                    members.len(),
+                    n_in,
                     snap.total
                 );
                 let f = fields(&snap);
                 for k in 0..NFIELDS {
                     let mut exp = 0u64;
-                    for id in &members {
-                        exp += table[id][k].unwrap();
+                    for (v, c) in &counts {
+                        exp += table[v][k].unwrap() * c;
                     }
                     assert!(
                         f[k] == exp,
-                        "C15.snapshot_torn: snapshot containing updates {:?}: total for {:?} is {} but those values need {} bits",
-                        members,
+                        "C15.snapshot_torn: snapshot containing (exponent, count) {:?}: total for {:?} is {} but those values need {} bits",
+                        counts,
                         field_code(k),
                         f[k],
                         exp
                     );
                 }
-                // real-time order: completed-before => included; invoked-after => excluded
-                let mk = marks.lock().unwrap();
-                for id in &all_ids {
-                    if let Some((inv, done)) = mk.get(id) {
-                        let inside = members.contains(id);
-                        assert!(
-                            !(*done < s_inv && !inside),
-                            "C15.snapshot_misses_completed_update: update 2^{}-1 completed before the snapshot was requested but is not in it",
-                            id
-                        );
-                        assert!(
-                            !(*inv > s_done && inside),
-                            "C15.snapshot_contains_future_update: update 2^{}-1 was invoked after the snapshot returned but is in it",
-                            id
-                        );
-                    } else {
-                        // not yet marked complete: may or may not be included
-                    }
+                // real-time order: completed-before => included; not yet invoked => excluded
+                let dn = done.lock().unwrap();
+                let iv = inv.lock().unwrap();
+                for (v, c) in &counts {
+                    let completed_before = dn.iter().filter(|(x, q)| x == v && *q < s_inv).count() as u64;
+                    let invoked_before = iv.iter().filter(|(x, q)| x == v && *q < s_done).count() as u64;
+                    assert!(
+                        *c >= completed_before,
+                        "C15.snapshot_misses_completed_update: {} updates of 2^{}-1 completed before the snapshot was requested but it holds {}",
+                        completed_before,
+                        v,
+                        c
+                    );
+                    assert!(
+                        *c <= invoked_before,
+                        "C15.snapshot_contains_future_update: the snapshot holds {} updates of 2^{}-1 but only {} had been invoked when it returned",
+                        c,
+                        v,
+                        invoked_before
+                    );
                 }
-                drop(mk);
+                drop(dn);
+                drop(iv);
                 thread::sleep(std::time::Duration::from_millis(0));
             }
         }));
@@ -272,7 +285,7 @@ fn scenario(s: Arc<S15>, table: Arc<HashMap<u32, Arc<Vec<Option<u64>>>>>, obs: A
     let f = fields(&fin);
     for k in 0..NFIELDS {
         let mut exp = 0u64;
-        for id in &all_ids {
+        for id in &all {
             exp += table[id][k].unwrap();
         }
         assert!(
@@ -555,22 +568,37 @@ impl Family for C15 {
     fn gen(rng: &mut Rng, tier: Tier, index: u64) -> S15 {
         let e = if index % 2 == 0 { En::BE } else { En::LE };
         let nthreads = rng.usize_range(2, 4);
-        // distinct exponents 0..=12 (values up to 4095 so that even unary is writable)
-        let mut ids: Vec<u32> = (0..13).collect();
-        for i in (1..ids.len()).rev() {
+        // values 2^i - 1 with i even in 0..=12; a pool with every value three times, so that
+        // repeated values (also across threads) are common; values stay <= 4095 so that even
+        // the unary code is writable and real sizes can be measured
+        let mut pool: Vec<u32> = Vec::new();
+        let distinct = rng.usize_range(1, 7);
+        let mut evens: Vec<u32> = (0..7).map(|k| 2 * k).collect();
+        for i in (1..evens.len()).rev() {
             let j = rng.below(i as u64 + 1) as usize;
-            ids.swap(i, j);
+            evens.swap(i, j);
+        }
+        for v in evens.iter().take(distinct) {
+            for _ in 0..3 {
+                pool.push(*v);
+            }
+        }
+        for i in (1..pool.len()).rev() {
+            let j = rng.below(i as u64 + 1) as usize;
+            pool.swap(i, j);
         }
         let mut threads = Vec::new();
         for _ in 0..nthreads {
             let k = rng.usize_range(1, 3);
             let mut t = Vec::new();
             for _ in 0..k {
-                if let Some(i) = ids.pop() {
+                if let Some(i) = pool.pop() {
                     t.push(Upd { i, write: rng.chance(1, 2), stat: rng.chance(1, 2) });
                 }
             }
-            threads.push(t);
+            if !t.is_empty() {
+                threads.push(t);
+            }
         }
         let np = rng.usize_range(1, 4);
         let partials = (0..np)
@@ -687,7 +715,7 @@ impl Family for C15 {
     }
 
     fn rule() -> &'static str {
-        "one case = (endianness, wrapped dispatcher code, 2-4 simulated threads with 1-3 updates each through one shared CodesStatsWrapper (read or write on private streams; values are distinct 2^i-1, i<=12), an observer thread taking 1-3 snapshots, scheduler {seeded random, PCT depth 1-4} with 20 (quick) / 60 (thorough) schedules per case, then 1-4 partial CodesStats built with update/update_many (multiplicities 0,1,2..1000, values up to 2^50) and merged with a seed-chosen mix of add, +=, +, sum, best_code). evaluations = cases; schedules executed are reported in reach_probes. distinct_nontrivial = distinct interleavings observed, measured as distinct sequences of (which thread completed an update / when a snapshot was taken)"
+        "one case = (endianness, wrapped dispatcher code, 2-4 simulated threads with 1-3 updates each through one shared CodesStatsWrapper (read or write on private streams; values 2^i-1 with i even <= 12, each value used up to three times, also by different threads), an observer thread taking 1-3 snapshots, scheduler {seeded random, PCT depth 1-4} with 20 (quick) / 60 (thorough) schedules per case, then 1-4 partial CodesStats built with update/update_many (multiplicities 0,1,2..1000, values up to 2^50) and merged with a seed-chosen mix of add, +=, +, sum, best_code). evaluations = cases; schedules executed are reported in reach_probes. distinct_nontrivial = distinct interleavings observed, measured as distinct sequences of (which thread completed an update / when a snapshot was taken)"
     }
 
     fn components() -> (Vec<&'static str>, Vec<&'static str>) {
